@@ -1,5 +1,10 @@
 package props
 
-import "encoding/json"
+import (
+	"encoding/json"
+	"io"
+)
 
 func jsonUnmarshal(b []byte, v any) error { return json.Unmarshal(b, v) }
+
+func ioEOF() error { return io.EOF }
